@@ -21,12 +21,12 @@ func init() {
 		Explanation: "Structural necessary conditions, decided by finite-domain evaluation of the control-flow graphs of every exported function of package osm that has a time parameter t and reaches (itself or through unexported helpers) a loop over an osm.Updates value: " +
 			"(U1) each such loop, evaluated for the element's Timestamp before / equal to / after t, treats an update after t by paths that all return to the loop head (no break, return, panic) with effects disjoint from the in-time effects, and treats `before` and `equal` alike (stored order is index order, not time order); a loop over the result of a function verified to return exactly the in-time elements of its input in order (Updates.UpTo, or one result of a splitter helper), called with t, counts as already classified; " +
 			"(U2) in ApplyUpdatesUpTo the only effect for an update after t is `P = append(P, u)` on every path, P has no other non-empty assignment and is stored back into the scanned Updates field before every success return and never on a path that returns an error (a list that a helper returns together with an error is stored exactly when that error is nil); every update at or before t reaches the call that applies it, and a non-nil error of that call always reaches a return that carries it; " +
-			"(U3) every X[u.Index] is controlled by a test that establishes u.Index < len(X) (in the function or at every call site of an unexported function), and for an in-time update whose Index is out of range ApplyUpdatesUpTo ends in a return with a non-nil error on every path; " +
+			"(U3) every X[u.Index] is controlled by tests that establish 0 <= u.Index < len(X) — both sides, because Update.Index is a signed int read from xml/json and a negative index panics; one unsigned comparison `uint(u.Index) >= uint(len(X))` counts for both sides, `uint(u.Index) <= uint(len(X)-1)` for neither (it passes every index when X is empty) — in the function or at every call site of an unexported function; and for an in-time update whose Index is at or beyond the length, or negative, ApplyUpdatesUpTo ends in a return with a non-nil error on every path; " +
 			"(U4) the code reached from ApplyUpdatesUpTo assigns exactly Version, ChangesetID, Lat, Lon of <receiver>.<children>[u.Index] from the same-named fields of the scanned update on every success path of an in-range update, negates Orientation exactly when u.Reverse holds, and LineStringAt writes the update's coordinates into the point slots WayNode.Point uses; " +
 			"(U5) every return with a nil error / normal result of these functions is dominated by the normal exit of the loop over the update list (or is taken under an empty-list test), and the loop has no break: no shortcut skips the scan. " +
 			"The rules look through unexported helpers, predicate helpers, boolean locals, pointer aliases, merged / inverted / switch-form guards, index loops and renamed locals, and through calls of function values: a function-typed parameter (or single-definition local) is followed to the method value, function name or function literal bound at the call site, and the callee is evaluated with that value bound (receiver / captured variables read where the value was formed). " +
 			"Also understood: loops left through a condition variable or a break with the error pending (`err = X; leave; … return err` is read as `return X`, and the store of the pending list is then decided for err == nil / err != nil); partition-then-apply (a helper that returns the in-time and the later list, each verified by the partition rule, whichever way `not after` is spelled); element updates as field stores through the index, through an element pointer, or as copy / modify / store-back of the whole element (the copy must start from the very element, every field assignment must precede the store, the store must be unconditional); range tests over converted operands and `len-1` (an unsigned comparison with len-1 is recognised and rejected: it passes every index for an empty list). " +
-			"NOT decided: composability t1 then t2 and geometry equality as values; negative update indices; which error type reports an out-of-range index; callback iterators whose callback itself classifies the update by time (the classification is then inside the callee of a loop that does not test t: reported, not passed), partition results carried in a struct instead of a tuple, `for {}` loops with a hand-written index test; function values that are stored in fields, returned from calls or assigned more than once (the call is then opaque: an effect whose callee is unknown, and the API anchor or the apply obligation fails instead of passing); which children were already changed when ApplyUpdatesUpTo returns an error; behaviour of callers outside package osm.",
+			"NOT decided: composability t1 then t2 and geometry equality as values; which error type reports an out-of-range index; callback iterators whose callback itself classifies the update by time (the classification is then inside the callee of a loop that does not test t: reported, not passed), partition results carried in a struct instead of a tuple, `for {}` loops with a hand-written index test; function values that are stored in fields, returned from calls or assigned more than once (the call is then opaque: an effect whose callee is unknown, and the API anchor or the apply obligation fails instead of passing); which children were already changed when ApplyUpdatesUpTo returns an error; behaviour of callers outside package osm.",
 		Assumptions: []string{"go/types, go/cfg (x/tools v0.29.0)", "semantics of time.Time.After/Before/Equal/Compare", "orb.Point is [2]float64", "static calls inside package osm resolve to the declared function; a function-typed parameter holds the value bound at the call site being followed"},
 		LevelText:   "Structural necessary conditions of the update-application semantics, decided by evaluating the CFG of every time-bounded scan of an osm.Updates list for the abstract inputs {Timestamp before, equal, after t} x {Index in range, out of range} x {Reverse true, false}: skip-not-stop on too-late updates, inclusive bound, pending list kept in order and stored back, in-time updates applied with error propagation, index guard, out-of-range reported, field copy agreement, orientation flip, geometry slots, no success exit before the scan completed. Value-level composability and geometry equality are not decided.",
 		LevelNote:   "Trusts the Go type checker and go/cfg; semantics of time.Time comparisons; rules cover package osm only (the loops the property names). Helpers are followed through static calls to depth 4; anything else is reported as undecided.",
@@ -35,7 +35,7 @@ func init() {
 		Rules: []*core.Rule{
 			{ID: "U1", Floor: 4, Doc: "every time-bounded loop over Updates skips (never stops at) an update after t, keeps its handling disjoint from the in-time handling, and treats `equal to t` as in time", Run: c15U1},
 			{ID: "U2", Floor: 4, Doc: "ApplyUpdatesUpTo keeps exactly the updates after t, in order, as the new pending list; applies every other update; propagates the error", Run: c15U2},
-			{ID: "U3", Floor: 5, Doc: "every X[u.Index] is controlled by u.Index < len(X); an out-of-range in-time update makes ApplyUpdatesUpTo return a non-nil error", Run: c15U3},
+			{ID: "U3", Floor: 5, Doc: "every X[u.Index] is controlled by 0 <= u.Index < len(X) (both sides); an in-time update with an index outside [0, len) makes ApplyUpdatesUpTo return a non-nil error", Run: c15U3},
 			{ID: "U4", Floor: 5, Doc: "child field copies / orientation flip reached from ApplyUpdatesUpTo and point slots in LineStringAt agree, unconditionally for in-range in-time updates", Run: c15U4},
 			{ID: "U5", Floor: 4, Doc: "no success exit of a time-bounded scan before the loop over the update list has completed", Run: c15U5},
 		},
@@ -44,16 +44,16 @@ func init() {
 			{Name: "upto-break", File: "update.go", Find: "if u.Timestamp.After(t) {\n\t\t\tcontinue", Replace: "if u.Timestamp.After(t) {\n\t\t\tbreak", ExpectRule: "U1", ExpectConstruct: "Updates.UpTo"},
 			{Name: "upto-before", File: "update.go", Find: "if u.Timestamp.After(t) {\n\t\t\tcontinue", Replace: "if u.Timestamp.Before(t) {\n\t\t\tcontinue", ExpectRule: "U1", ExpectConstruct: "Updates.UpTo"},
 			{Name: "upto-exclusive", File: "update.go", Find: "if u.Timestamp.After(t) {\n\t\t\tcontinue", Replace: "if !u.Timestamp.Before(t) {\n\t\t\tcontinue", ExpectRule: "U1", ExpectConstruct: "Updates.UpTo"},
-			{Name: "lsat-no-test", File: "way.go", Find: "\t\tif u.Timestamp.After(t) {\n\t\t\tcontinue\n\t\t}\n\n\t\tif u.Index >= len(ls)", Replace: "\t\tif u.Index >= len(ls)", ExpectRule: "U1", ExpectConstruct: "(*Way).LineStringAt"},
-			{Name: "lsat-return-on-late", File: "way.go", Find: "\t\tif u.Timestamp.After(t) {\n\t\t\tcontinue\n\t\t}\n\n\t\tif u.Index >= len(ls)", Replace: "\t\tif u.Timestamp.After(t) {\n\t\t\treturn ls\n\t\t}\n\n\t\tif u.Index >= len(ls)", ExpectRule: "U1", ExpectConstruct: "(*Way).LineStringAt"},
+			{Name: "lsat-no-test", File: "way.go", Find: "\t\tif u.Timestamp.After(t) {\n\t\t\tcontinue\n\t\t}\n\n\t\tif u.Index < 0 || u.Index >= len(ls)", Replace: "\t\tif u.Index < 0 || u.Index >= len(ls)", ExpectRule: "U1", ExpectConstruct: "(*Way).LineStringAt"},
+			{Name: "lsat-return-on-late", File: "way.go", Find: "\t\tif u.Timestamp.After(t) {\n\t\t\tcontinue\n\t\t}\n\n\t\tif u.Index < 0 || u.Index >= len(ls)", Replace: "\t\tif u.Timestamp.After(t) {\n\t\t\treturn ls\n\t\t}\n\n\t\tif u.Index < 0 || u.Index >= len(ls)", ExpectRule: "U1", ExpectConstruct: "(*Way).LineStringAt"},
 			{Name: "rel-drop-pending", File: "relation.go", Find: "\t\t\tnotApplied = append(notApplied, u)\n", Replace: "", ExpectRule: "U2", ExpectConstruct: "pending@(*Relation).ApplyUpdatesUpTo"},
 			{Name: "way-drop-store", File: "way.go", Find: "\tw.Updates = notApplied\n", Replace: "", ExpectRule: "U2", ExpectConstruct: "pending@(*Way).ApplyUpdatesUpTo"},
 			{Name: "rel-pending-prepend", File: "relation.go", Find: "notApplied = append(notApplied, u)", Replace: "notApplied = append([]Update{u}, notApplied...)", ExpectRule: "U2", ExpectConstruct: "pending@(*Relation).ApplyUpdatesUpTo"},
 			{Name: "way-error-swallowed", File: "way.go", Find: "if err := w.applyUpdate(u); err != nil {\n\t\t\treturn err\n\t\t}", Replace: "if err := w.applyUpdate(u); err != nil {\n\t\t\tcontinue\n\t\t}", ExpectRule: "U2", ExpectConstruct: "apply@(*Way).ApplyUpdatesUpTo"},
 			{Name: "rel-error-dropped", File: "relation.go", Find: "if err := r.applyUpdate(u); err != nil {\n\t\t\treturn err\n\t\t}", Replace: "_ = r.applyUpdate(u)", ExpectRule: "U2", ExpectConstruct: "apply@(*Relation).ApplyUpdatesUpTo"},
-			{Name: "way-guard-gt", File: "way.go", Find: "if u.Index >= len(w.Nodes) {", Replace: "if u.Index > len(w.Nodes) {", ExpectRule: "U3", ExpectConstruct: "index@Way.Nodes"},
-			{Name: "lsat-guard-dropped", File: "way.go", Find: "if u.Index >= len(ls) {\n\t\t\tcontinue\n\t\t}\n", Replace: "", ExpectRule: "U3", ExpectConstruct: "(*Way).LineStringAt"},
-			{Name: "rel-guard-other-list", File: "relation.go", Find: "if u.Index >= len(r.Members) {", Replace: "if u.Index >= len(r.Updates) {", ExpectRule: "U3", ExpectConstruct: "index@Relation.Members"},
+			{Name: "way-guard-gt", File: "way.go", Find: "if u.Index < 0 || u.Index >= len(w.Nodes) {", Replace: "if u.Index < 0 || u.Index > len(w.Nodes) {", ExpectRule: "U3", ExpectConstruct: "index@Way.Nodes"},
+			{Name: "lsat-guard-dropped", File: "way.go", Find: "if u.Index < 0 || u.Index >= len(ls) {\n\t\t\tcontinue\n\t\t}\n", Replace: "", ExpectRule: "U3", ExpectConstruct: "(*Way).LineStringAt"},
+			{Name: "rel-guard-other-list", File: "relation.go", Find: "if u.Index < 0 || u.Index >= len(r.Members) {", Replace: "if u.Index < 0 || u.Index >= len(r.Updates) {", ExpectRule: "U3", ExpectConstruct: "index@Relation.Members"},
 			{Name: "rel-oob-silent", File: "relation.go", Find: "return &UpdateIndexOutOfRangeError{Index: u.Index}", Replace: "return nil", ExpectRule: "U3", ExpectConstruct: "oob@(*Relation).ApplyUpdatesUpTo"},
 			{Name: "rel-latlon-swapped", File: "relation.go", Find: "r.Members[u.Index].Lat = u.Lat", Replace: "r.Members[u.Index].Lat = u.Lon", ExpectRule: "U4", ExpectConstruct: "copy@Relation.Members"},
 			{Name: "lsat-latlon-swapped", File: "way.go", Find: "ls[u.Index][0] = u.Lon", Replace: "ls[u.Index][0] = u.Lat", ExpectRule: "U4", ExpectConstruct: "LineStringAt"},
@@ -66,8 +66,8 @@ func init() {
 			{Name: "rel-early-success", File: "relation.go", Find: "func (r *Relation) ApplyUpdatesUpTo(t time.Time) error {\n", Replace: "func (r *Relation) ApplyUpdatesUpTo(t time.Time) error {\n\tif t.Before(r.Timestamp) {\n\t\treturn nil\n\t}\n", ExpectRule: "U5", ExpectConstruct: "complete@(*Relation).ApplyUpdatesUpTo"},
 			{Name: "lsat-early-result", File: "way.go", Find: "func (w *Way) LineStringAt(t time.Time) orb.LineString {\n", Replace: "func (w *Way) LineStringAt(t time.Time) orb.LineString {\n\tif t.Before(w.Timestamp) {\n\t\treturn w.LineString()\n\t}\n", ExpectRule: "U5", ExpectConstruct: "complete@(*Way).LineStringAt"},
 			{Name: "way-first-only", File: "way.go", Find: "\t\tif err := w.applyUpdate(u); err != nil {\n\t\t\treturn err\n\t\t}\n\t}", Replace: "\t\treturn w.applyUpdate(u)\n\t}", ExpectRule: "U5", ExpectConstruct: "complete@(*Way).ApplyUpdatesUpTo"},
-		}, append(append([]core.Mutant{}, c15Mutants2...), c15Mutants3...)...),
-		Benign: append(append(append([]core.Mutant{}, c15Benign...), c15Benign2...), c15Benign3...),
+		}, append(append(append([]core.Mutant{}, c15Mutants2...), c15Mutants3...), c15Mutants4...)...),
+		Benign: append(append(append(append([]core.Mutant{}, c15Benign...), c15Benign2...), c15Benign3...), c15Benign4...),
 	})
 }
 
@@ -84,27 +84,27 @@ var c15Benign = []core.Mutant{
 	// 1 inline: applyUpdate inlined into the loop
 	{Name: "way-apply-inlined", File: "way.go",
 		Find:    "\t\tif err := w.applyUpdate(u); err != nil {\n\t\t\treturn err\n\t\t}\n\t}\n\n\tw.Updates = notApplied",
-		Replace: "\t\tif u.Index >= len(w.Nodes) {\n\t\t\treturn &UpdateIndexOutOfRangeError{Index: u.Index}\n\t\t}\n\n\t\tnode := &w.Nodes[u.Index]\n\t\tnode.Version = u.Version\n\t\tnode.ChangesetID = u.ChangesetID\n\t\tnode.Lat = u.Lat\n\t\tnode.Lon = u.Lon\n\t}\n\n\tw.Updates = notApplied"},
+		Replace: "\t\tif u.Index < 0 || u.Index >= len(w.Nodes) {\n\t\t\treturn &UpdateIndexOutOfRangeError{Index: u.Index}\n\t\t}\n\n\t\tnode := &w.Nodes[u.Index]\n\t\tnode.Version = u.Version\n\t\tnode.ChangesetID = u.ChangesetID\n\t\tnode.Lat = u.Lat\n\t\tnode.Lon = u.Lon\n\t}\n\n\tw.Updates = notApplied"},
 	// 1 extract: range test of applyUpdate moves into a helper returning the error
 	{Name: "rel-guard-helper", File: "relation.go",
-		Find:    "func (r *Relation) applyUpdate(u Update) error {\n\tif u.Index >= len(r.Members) {\n\t\treturn &UpdateIndexOutOfRangeError{Index: u.Index}\n\t}\n",
-		Replace: "func (r *Relation) hasMember(i int) bool { return i < len(r.Members) }\n\nfunc (r *Relation) applyUpdate(u Update) error {\n\tif !r.hasMember(u.Index) {\n\t\treturn &UpdateIndexOutOfRangeError{Index: u.Index}\n\t}\n"},
+		Find:    "func (r *Relation) applyUpdate(u Update) error {\n\tif u.Index < 0 || u.Index >= len(r.Members) {\n\t\treturn &UpdateIndexOutOfRangeError{Index: u.Index}\n\t}\n",
+		Replace: "func (r *Relation) hasMember(i int) bool { return 0 <= i && i < len(r.Members) }\n\nfunc (r *Relation) applyUpdate(u Update) error {\n\tif !r.hasMember(u.Index) {\n\t\treturn &UpdateIndexOutOfRangeError{Index: u.Index}\n\t}\n"},
 	// 2 if -> tagless switch
 	{Name: "rel-switch-form", File: "relation.go",
 		Find:    "\t\tif u.Timestamp.After(t) {\n\t\t\tnotApplied = append(notApplied, u)\n\t\t\tcontinue\n\t\t}\n\n\t\tif err := r.applyUpdate(u); err != nil {\n\t\t\treturn err\n\t\t}\n",
 		Replace: "\t\tswitch {\n\t\tcase u.Timestamp.After(t):\n\t\t\tnotApplied = append(notApplied, u)\n\t\tdefault:\n\t\t\tif err := r.applyUpdate(u); err != nil {\n\t\t\t\treturn err\n\t\t\t}\n\t\t}\n"},
 	// 2 inverted branch + nesting instead of early continue, merged guards
 	{Name: "lsat-nested", File: "way.go",
-		Find:    "\t\tif u.Timestamp.After(t) {\n\t\t\tcontinue\n\t\t}\n\n\t\tif u.Index >= len(ls) {\n\t\t\tcontinue\n\t\t}\n\n\t\tls[u.Index][0] = u.Lon\n\t\tls[u.Index][1] = u.Lat\n",
-		Replace: "\t\tif !u.Timestamp.After(t) && u.Index < len(ls) {\n\t\t\tls[u.Index][0] = u.Lon\n\t\t\tls[u.Index][1] = u.Lat\n\t\t}\n"},
+		Find:    "\t\tif u.Timestamp.After(t) {\n\t\t\tcontinue\n\t\t}\n\n\t\tif u.Index < 0 || u.Index >= len(ls) {\n\t\t\tcontinue\n\t\t}\n\n\t\tls[u.Index][0] = u.Lon\n\t\tls[u.Index][1] = u.Lat\n",
+		Replace: "\t\tif !u.Timestamp.After(t) && u.Index >= 0 && u.Index < len(ls) {\n\t\t\tls[u.Index][0] = u.Lon\n\t\t\tls[u.Index][1] = u.Lat\n\t\t}\n"},
 	// 2 Before||Equal spelling of "not after", if/else
 	{Name: "upto-before-or-equal", File: "update.go",
 		Find:    "\t\tif u.Timestamp.After(t) {\n\t\t\tcontinue\n\t\t}\n\n\t\tresult = append(result, u)\n",
 		Replace: "\t\tif u.Timestamp.Before(t) || u.Timestamp.Equal(t) {\n\t\t\tresult = append(result, u)\n\t\t} else {\n\t\t\tcontinue\n\t\t}\n"},
 	// 3 pointer alias + boolean local
 	{Name: "lsat-pointer-alias", File: "way.go",
-		Find:    "\t\tif u.Timestamp.After(t) {\n\t\t\tcontinue\n\t\t}\n\n\t\tif u.Index >= len(ls) {\n\t\t\tcontinue\n\t\t}\n\n\t\tls[u.Index][0] = u.Lon\n\t\tls[u.Index][1] = u.Lat\n",
-		Replace: "\t\ttooLate := u.Timestamp.After(t)\n\t\tif tooLate {\n\t\t\tcontinue\n\t\t}\n\n\t\tidx := u.Index\n\t\tif idx >= len(ls) {\n\t\t\tcontinue\n\t\t}\n\n\t\tpt := &ls[idx]\n\t\tpt[0] = u.Lon\n\t\tpt[1] = u.Lat\n"},
+		Find:    "\t\tif u.Timestamp.After(t) {\n\t\t\tcontinue\n\t\t}\n\n\t\tif u.Index < 0 || u.Index >= len(ls) {\n\t\t\tcontinue\n\t\t}\n\n\t\tls[u.Index][0] = u.Lon\n\t\tls[u.Index][1] = u.Lat\n",
+		Replace: "\t\ttooLate := u.Timestamp.After(t)\n\t\tif tooLate {\n\t\t\tcontinue\n\t\t}\n\n\t\tidx := u.Index\n\t\tif idx < 0 || idx >= len(ls) {\n\t\t\tcontinue\n\t\t}\n\n\t\tpt := &ls[idx]\n\t\tpt[0] = u.Lon\n\t\tpt[1] = u.Lat\n"},
 	// 3 named constants for the slots, whole-point assignment
 	{Name: "lsat-whole-point", File: "way.go",
 		Find:    "\t\tls[u.Index][0] = u.Lon\n\t\tls[u.Index][1] = u.Lat\n",
@@ -128,20 +128,20 @@ var c15Benign = []core.Mutant{
 		Find:    "\tr.Members[u.Index].Version = u.Version\n\tr.Members[u.Index].ChangesetID = u.ChangesetID\n\tr.Members[u.Index].Lat = u.Lat\n\tr.Members[u.Index].Lon = u.Lon\n\n\tif u.Reverse {\n\t\tr.Members[u.Index].Orientation *= -1\n\t}\n",
 		Replace: "\tmembers := r.Members\n\tif u.Reverse {\n\t\tmembers[u.Index].Orientation = -members[u.Index].Orientation\n\t}\n\n\tmembers[u.Index].Lon = u.Lon\n\tmembers[u.Index].Lat = u.Lat\n\tmembers[u.Index].ChangesetID = u.ChangesetID\n\tmembers[u.Index].Version = u.Version\n"},
 	{Name: "lsat-guards-swapped", File: "way.go",
-		Find:    "\t\tif u.Timestamp.After(t) {\n\t\t\tcontinue\n\t\t}\n\n\t\tif u.Index >= len(ls) {\n\t\t\tcontinue\n\t\t}\n",
-		Replace: "\t\tif len(ls) <= u.Index {\n\t\t\tcontinue\n\t\t}\n\n\t\tif u.Timestamp.After(t) {\n\t\t\tcontinue\n\t\t}\n"},
+		Find:    "\t\tif u.Timestamp.After(t) {\n\t\t\tcontinue\n\t\t}\n\n\t\tif u.Index < 0 || u.Index >= len(ls) {\n\t\t\tcontinue\n\t\t}\n",
+		Replace: "\t\tif u.Index < 0 || len(ls) <= u.Index {\n\t\t\tcontinue\n\t\t}\n\n\t\tif u.Timestamp.After(t) {\n\t\t\tcontinue\n\t\t}\n"},
 	// reuse of the verified filter as the source of the scan
 	{Name: "lsat-filtered-source", File: "way.go",
-		Find:    "\tfor _, u := range w.Updates {\n\t\tif u.Timestamp.After(t) {\n\t\t\tcontinue\n\t\t}\n\n\t\tif u.Index >= len(ls) {",
-		Replace: "\tfor _, u := range w.Updates.UpTo(t) {\n\t\tif u.Index >= len(ls) {"},
+		Find:    "\tfor _, u := range w.Updates {\n\t\tif u.Timestamp.After(t) {\n\t\t\tcontinue\n\t\t}\n\n\t\tif u.Index < 0 || u.Index >= len(ls) {",
+		Replace: "\tfor _, u := range w.Updates.UpTo(t) {\n\t\tif u.Index < 0 || u.Index >= len(ls) {"},
 	// early exit when there is nothing to scan; preallocated-empty pending list is NOT used (changes nil-ness)
 	{Name: "way-empty-shortcut", File: "way.go",
 		Find:    "func (w *Way) ApplyUpdatesUpTo(t time.Time) error {\n",
 		Replace: "func (w *Way) ApplyUpdatesUpTo(t time.Time) error {\n\tif len(w.Updates) == 0 {\n\t\treturn nil\n\t}\n\n"},
 	// guard of applyUpdate inverted: success path nested
 	{Name: "way-guard-inverted", File: "way.go",
-		Find:    "\tif u.Index >= len(w.Nodes) {\n\t\treturn &UpdateIndexOutOfRangeError{Index: u.Index}\n\t}\n\n\tw.Nodes[u.Index].Version = u.Version\n\tw.Nodes[u.Index].ChangesetID = u.ChangesetID\n\tw.Nodes[u.Index].Lat = u.Lat\n\tw.Nodes[u.Index].Lon = u.Lon\n\n\treturn nil\n",
-		Replace: "\tif i := u.Index; i < len(w.Nodes) {\n\t\tw.Nodes[i].Version = u.Version\n\t\tw.Nodes[i].ChangesetID = u.ChangesetID\n\t\tw.Nodes[i].Lat = u.Lat\n\t\tw.Nodes[i].Lon = u.Lon\n\t\treturn nil\n\t}\n\n\treturn &UpdateIndexOutOfRangeError{Index: u.Index}\n"},
+		Find:    "\tif u.Index < 0 || u.Index >= len(w.Nodes) {\n\t\treturn &UpdateIndexOutOfRangeError{Index: u.Index}\n\t}\n\n\tw.Nodes[u.Index].Version = u.Version\n\tw.Nodes[u.Index].ChangesetID = u.ChangesetID\n\tw.Nodes[u.Index].Lat = u.Lat\n\tw.Nodes[u.Index].Lon = u.Lon\n\n\treturn nil\n",
+		Replace: "\tif i := u.Index; i >= 0 && i < len(w.Nodes) {\n\t\tw.Nodes[i].Version = u.Version\n\t\tw.Nodes[i].ChangesetID = u.ChangesetID\n\t\tw.Nodes[i].Lat = u.Lat\n\t\tw.Nodes[i].Lon = u.Lon\n\t\treturn nil\n\t}\n\n\treturn &UpdateIndexOutOfRangeError{Index: u.Index}\n"},
 	// named error result with bare returns
 	{Name: "rel-named-result", File: "relation.go",
 		Find:    "func (r *Relation) ApplyUpdatesUpTo(t time.Time) error {\n\tvar notApplied []Update\n\tfor _, u := range r.Updates {\n\t\tif u.Timestamp.After(t) {\n\t\t\tnotApplied = append(notApplied, u)\n\t\t\tcontinue\n\t\t}\n\n\t\tif err := r.applyUpdate(u); err != nil {\n\t\t\treturn err\n\t\t}\n\t}\n\n\tr.Updates = notApplied\n\treturn nil\n}",
@@ -160,8 +160,8 @@ var c15Benign = []core.Mutant{
 		Replace: "\tfor _, u := range w.Updates.UpTo(t) {\n\t\tif err := w.applyUpdate(u); err != nil {\n\t\t\treturn err\n\t\t}\n\t}\n\n\tvar notApplied []Update\n\tfor _, u := range w.Updates {\n\t\tif u.Timestamp.After(t) {\n\t\t\tnotApplied = append(notApplied, u)\n\t\t}\n\t}\n"},
 	// range test extracted into an error-returning helper over plain ints, field copies into a setter helper
 	{Name: "way-check-and-set-helpers", File: "way.go",
-		Find:    "\tif u.Index >= len(w.Nodes) {\n\t\treturn &UpdateIndexOutOfRangeError{Index: u.Index}\n\t}\n\n\tw.Nodes[u.Index].Version = u.Version\n\tw.Nodes[u.Index].ChangesetID = u.ChangesetID\n\tw.Nodes[u.Index].Lat = u.Lat\n\tw.Nodes[u.Index].Lon = u.Lon\n\n\treturn nil\n}\n",
-		Replace: "\tif err := checkIndex(u.Index, len(w.Nodes)); err != nil {\n\t\treturn err\n\t}\n\n\tsetNode(&w.Nodes[u.Index], u)\n\treturn nil\n}\n\nfunc checkIndex(i, n int) error {\n\tif i >= n {\n\t\treturn &UpdateIndexOutOfRangeError{Index: i}\n\t}\n\treturn nil\n}\n\nfunc setNode(n *WayNode, u Update) {\n\tn.Version = u.Version\n\tn.ChangesetID = u.ChangesetID\n\tn.Lat, n.Lon = u.Lat, u.Lon\n}\n"},
+		Find:    "\tif u.Index < 0 || u.Index >= len(w.Nodes) {\n\t\treturn &UpdateIndexOutOfRangeError{Index: u.Index}\n\t}\n\n\tw.Nodes[u.Index].Version = u.Version\n\tw.Nodes[u.Index].ChangesetID = u.ChangesetID\n\tw.Nodes[u.Index].Lat = u.Lat\n\tw.Nodes[u.Index].Lon = u.Lon\n\n\treturn nil\n}\n",
+		Replace: "\tif err := checkIndex(u.Index, len(w.Nodes)); err != nil {\n\t\treturn err\n\t}\n\n\tsetNode(&w.Nodes[u.Index], u)\n\treturn nil\n}\n\nfunc checkIndex(i, n int) error {\n\tif i < 0 || i >= n {\n\t\treturn &UpdateIndexOutOfRangeError{Index: i}\n\t}\n\treturn nil\n}\n\nfunc setNode(n *WayNode, u Update) {\n\tn.Version = u.Version\n\tn.ChangesetID = u.ChangesetID\n\tn.Lat, n.Lon = u.Lat, u.Lon\n}\n"},
 	// orientation flip extracted into a method of the member
 	{Name: "rel-flip-helper", File: "relation.go",
 		Find:    "\tif u.Reverse {\n\t\tr.Members[u.Index].Orientation *= -1\n\t}\n\n\treturn nil\n}\n",
